@@ -752,6 +752,14 @@ func scenarioNoteMut(t *traceWriter, rng *rand.Rand) {
 		}
 		// unknown id
 		s.update(f_log.ID("nobody.example/x"), 0, valid, [][]byte{}, "class=mut.unknownLog")
+		// ids that are NOT configured but resemble a configured one: other letter case, padding, prefix, suffix
+		for _, v := range []string{strings.ToUpper(l.id), strings.ToUpper(l.id[:1]) + l.id[1:], l.id[:len(l.id)-1] + strings.ToUpper(l.id[len(l.id)-1:]),
+			l.id + " ", " " + l.id, l.id + "\n", l.id[:len(l.id)-1], l.id + "0", "0x" + l.id, l.id + "/", strings.Repeat("0", 64), ""} {
+			if v == l.id {
+				continue
+			}
+			s.updateFreshID(defs, wk, v, valid, "mut.unknownLogVariant")
+		}
 		s.end()
 	}
 }
@@ -759,6 +767,18 @@ func scenarioNoteMut(t *traceWriter, rng *rand.Rand) {
 // updateFresh runs one request; when it is accepted the log's state is restored by recreating the witness
 // lazily: simplest sound way here is to run every mutation in the same session and, after an acceptance,
 // continue in a fresh session (the session id changes, the model follows).
+// updateFreshID: a request under an id that is not configured; if it is accepted all the same, go on in a fresh session.
+func (s *session) updateFreshID(defs []*logDef, wk []witKey, id string, cp []byte, class string) {
+	s.unknownIDs = append(s.unknownIDs, id)
+	res := s.update(id, 0, cp, [][]byte{}, "class="+class)
+	if res.cls == "none" {
+		s.t.line("END %s", s.id)
+		s.store.close()
+		ns := newSession(s.t, s.store.kind, defs, wk)
+		*s = *ns
+	}
+}
+
 func (s *session) updateFresh(defs []*logDef, wk []witKey, l *logDef, withState bool, tr *branch, old uint64, cp []byte, proof [][]byte, class string) {
 	res := s.update(l.id, old, cp, proof, "class="+class)
 	if res.cls == "none" {
